@@ -894,3 +894,14 @@ Proof.
   exists f0, N, s'. split; [exact H|split; [exact HU'|exact HN]].
 Qed.
 End MainX.
+
+(* ---- the hypotheses are satisfiable, and the bound is met: `( a + b ) * c ;` - 7 tokens, 9 reads (the parenthesis three times) ---- *)
+Definition ex_cost_e : ex := XBin (s2l "*") (XBin (s2l "+") (XId (s2l "a")) (XId (s2l "b"))) (XId (s2l "c")).
+Example cost_hypotheses_satisfiable :
+  wf ex_cost_e /\ RoundTrip.Spell nat ex_toks (xt false ex_cost_e) /\
+  StreamLib.Up nat ex_state (ex_toks ++ [mkTok nat K_SEMI (s2l ";") 8]) /\ estop K_SEMI = true /\
+  match p_expression nat 60 ex_state with Ok (_, s') => (idx nat s', ticks nat s') = (7, 9%N) | _ => False end.
+Proof.
+  split; [cbn; repeat split; discriminate|]. split; [vm_compute; reflexivity|].
+  split; [exact (proj1 (proj2 (proj2 roundtrip_hypotheses_satisfiable)))|]. split; vm_compute; reflexivity.
+Qed.
